@@ -18,7 +18,20 @@ import (
 // per incoming edge, lengths, clamps, range indices).
 
 func init() {
-	register("P9s", "every slice expression and every index with a non-trivial bound in hand-written code (everything but the ragel/goyacc/stringer tables and parser.Scan) is within bounds on every path (0 <= lo <= hi <= len)", runP9s)
+	register("P9s", "every slice expression and every index with a non-trivial bound in hand-written code (everything but the ragel/goyacc/stringer tables) is within bounds on every path (0 <= lo <= hi <= len); in the scanner by the documented contract of package regexp applied to the pattern the code compiles", func(p *an.Prog, r *an.Result) { runP9s(p, r, nil) })
+	register("P9t", "the tokenizer part of P9s: every index into a match, into the matched text and into the delimiter list, and every slice of the input, is within bounds for every delimiter configuration", func(p *an.Prog, r *an.Result) {
+		scan := p.Func("parser.Scan")
+		if scan == nil {
+			r.Bad("-", "Scan not found", token.NoPos, "anchor not resolved")
+			return
+		}
+		unit := map[*ssa.Function]bool{}
+		for _, f := range unitWithHelpers(p, scan) {
+			unit[f] = true
+		}
+		runP9s(p, r, func(fn *ssa.Function) bool { return unit[an.Outermost(fn)] || unit[fn] })
+		r.Floor("bound obligations", 40)
+	})
 }
 
 // term is value+offset; a nil value is the constant offset alone.
@@ -83,7 +96,7 @@ func norm(v ssa.Value) term {
 // eqVal: structural equality good enough for bounds: same value, same field
 // loads, len/cap of the same operand.
 func eqVal(a, b ssa.Value) bool {
-	if sameValue(a, b) {
+	if sameValue(a, b) || sameMatchElem(a, b) {
 		return true
 	}
 	ca, ok1 := a.(*ssa.Call)
@@ -244,6 +257,9 @@ func (pr *prover) lowerBound(v ssa.Value, pt point, depth int) (int64, bool) {
 	if pr.nn.value(v, last, 0) {
 		upd(0)
 	}
+	if l, ok := pr.matchLower(v, pt); ok {
+		upd(l) // regexp contract R4
+	}
 	switch x := v.(type) {
 	case virtualLen:
 		upd(0)
@@ -343,6 +359,9 @@ func (pr *prover) le(a, b term, pt point, depth int, seen map[[2]ssa.Value]bool)
 		if l, ok := pr.lowerBound(b.v, pt, 0); ok && a.off <= l+b.off {
 			return true
 		}
+	}
+	if pr.matchLe(a, b) {
+		return true // regexp contract R2, R3
 	}
 	fs, _ := pr.factsAt(pt)
 	// direct guard, or guard + one more step
@@ -643,7 +662,7 @@ func lenOf(x ssa.Value) (term, bool) {
 	return term{}, false
 }
 
-func runP9s(p *an.Prog, r *an.Result) {
+func runP9s(p *an.Prog, r *an.Result, only func(*ssa.Function) bool) {
 	roles := GetRoles(p)
 	pr := &prover{p: p, nn: &nonNeg{p: p, memo: map[*ssa.Function]int{}}}
 	outOfScope := map[string]int{}
@@ -668,7 +687,7 @@ func runP9s(p *an.Prog, r *an.Result) {
 	}
 	for _, fn := range p.Funcs {
 		o := an.Outermost(fn)
-		if o.Pkg == nil || isMainPkg(fn) {
+		if o.Pkg == nil || isMainPkg(fn) || only != nil && !only(fn) {
 			continue
 		}
 		if why := p9OutOfScope(p, fn); why != "" {
@@ -696,10 +715,15 @@ func runP9s(p *an.Prog, r *an.Result) {
 		}
 		an.EachInstr(fn, func(in ssa.Instruction) {
 			pt := point{blk: in.Block()}
+			var curBase ssa.Value // the string or slice being indexed or sliced
 			check := func(construct, what string, a, b term) {
 				r.Counts["bound obligations"]++
 				if pr.le(a, b, pt, 0, map[[2]ssa.Value]bool{}) {
 					r.OK(name, construct+": "+what, an.InstrPos(in), "proved from dominating comparisons, clamps and length facts")
+				} else if why := pr.matchLinear(fn, in, curBase, a, b); why != "" {
+					r.OK(name, construct+": "+what, an.InstrPos(in), why)
+				} else if why := pr.callerProves(fn, curBase, a, b); why != "" {
+					r.OK(name, construct+": "+what, an.InstrPos(in), why)
 				} else {
 					r.Bad(name, construct+": "+what, an.InstrPos(in), fmt.Sprintf("%s: cannot show %s (%s <= %s) on every path; an out-of-range bound panics", an.FuncName(fn), what, a.String(p), b.String(p)))
 				}
@@ -732,6 +756,7 @@ func runP9s(p *an.Prog, r *an.Result) {
 					r.OK(name, "frame stack [:len-1]", an.InstrPos(in), "the pop of the block parser's frame stack; rule G1 shows it is reached only when a block is open, i.e. the stack is not empty")
 					return
 				}
+				curBase = base
 				ln := lenTermOf(base)
 				lo, hi := term{nil, 0}, ln
 				if x.Low != nil {
@@ -792,6 +817,7 @@ func runP9s(p *an.Prog, r *an.Result) {
 					r.OK(name, describe(p, base)+"["+describe(p, idx)+"]: Len/Index contract", an.InstrPos(in), why)
 					return
 				}
+				curBase = base
 				it := norm(idx)
 				ln := lenTermOf(base)
 				construct := describe(p, base) + "[" + it.String(p) + "]"
@@ -1158,8 +1184,6 @@ func p9OutOfScope(p *an.Prog, fn *ssa.Function) string {
 		return "ragel-generated lexer tables"
 	case strings.HasSuffix(file, "_string.go"):
 		return "stringer-generated tables"
-	case an.FuncName(o) == "parser.Scan":
-		return "parser.Scan indexes by regexp submatch positions (T6, T7, T8 decide its structure; the regexp contract is not modelled)"
 	}
 	return ""
 }
@@ -1483,6 +1507,9 @@ func (pr *prover) constLenAt(x ssa.Value, pt point, depth int, seen map[ssa.Valu
 				}
 			}
 		}
+	}
+	if n, ok := matchLen(pr.p, x); ok {
+		return n, true // regexp contract R1
 	}
 	switch v := x.(type) {
 	case *ssa.UnOp:
